@@ -902,7 +902,7 @@ theorem animation_quantized_track (calls : List AnimCall) (ch : Choices) (opts :
     simp [Anim.toGeometry, ha]
   obtain ⟨e, _, he⟩ := encodeAttribute_of_index ch _ none opts bs encs hf j a.toAttribute hg
   have hco := Anim.run_codable calls Anim.empty_codable hcod a (List.mem_of_getElem? ha)
-  obtain ⟨mins, range, q, hqp, hT⟩ := transformRow_quantized ch opts _ j a.toAttribute e he h9 hq
+  obtain ⟨mins, range, q, hqp, hT⟩ := transformRow_quantized _ opts _ j a.toAttribute e he h9 hq
     (by show a.attType ≠ 1; rw [hco.1]; decide)
   exact ⟨r, st, d, mins, range, q, h1, hfind, hqp, by rw [hv, hT]; rfl⟩
 
